@@ -334,6 +334,64 @@ def _merge(defs, d1, d2):
         defs[k] = seen
 
 
+def encoding_guards(fn, closed_test_polarity):
+    """the `if` statements that decide, from a link status, which connectivity bit (0 / 1) is stored in a container -- found by following control
+    AND data dependences back from the stores, so the container may have any name and the bit may travel through temporaries
+    (`val = 0 if closed else 1; vals.append(val)`, `entry = f(link); if entry == 1: data[i] = 1`)."""
+    defs = {}
+    for n in walk(fn):
+        if isinstance(n, (ast.Assign, ast.AnnAssign, ast.AugAssign)) and getattr(n, "value", None) is not None:
+            for t in _flat_targets(n):
+                if isinstance(t, ast.Name):
+                    defs.setdefault(t.id, []).append(n)
+
+    def bit(x, depth=0):
+        x = x.body if isinstance(x, ast.IfExp) and bit(x.body, depth + 1) and bit(x.orelse, depth + 1) else x
+        if isinstance(x, ast.Constant):
+            return type(x.value) is int and x.value in (0, 1)
+        if isinstance(x, ast.Name) and depth < 3 and x.id in defs:
+            return all(isinstance(d, ast.Assign) and len(d.targets) == 1 and bit(d.value, depth + 1) for d in defs[x.id])
+        return False
+    stores = []
+    for n in walk(fn):
+        if isinstance(n, ast.Call) and isinstance(n.func, ast.Attribute) and n.func.attr == "append" and len(n.args) == 1 and bit(n.args[0]):
+            stores.append((n, n.args[0]))
+        if isinstance(n, ast.Assign) and isinstance(n.targets[0], ast.Subscript) and bit(n.value):
+            stores.append((n, n.value))
+    guards, seen_names, todo = [], set(), []
+
+    def controls(node):
+        q = node
+        while q is not None and q is not fn:
+            p = parent(q)
+            if isinstance(p, ast.If) and (q in p.body or q in p.orelse) and p not in guards:
+                guards.append(p)
+                todo.extend(x.id for x in ast.walk(p.test) if isinstance(x, ast.Name))
+            q = p
+    for n, v in stores:
+        controls(n)
+        todo.extend(x.id for x in ast.walk(v) if isinstance(x, ast.Name))
+        for x in ast.walk(v):
+            if isinstance(x, ast.IfExp):
+                guards.append(x)
+    while todo:
+        nm = todo.pop()
+        if nm in seen_names or nm not in defs:
+            continue
+        seen_names.add(nm)
+        for d in defs[nm]:
+            if bit(d.value) or isinstance(d.value, ast.Compare):      # only the bit (and tests on it) is followed, not index arithmetic
+                controls(d)
+                for x in ast.walk(d.value):
+                    if isinstance(x, ast.IfExp):
+                        guards.append(x)
+                    if isinstance(x, ast.Name):
+                        todo.append(x.id)
+    out = [gd for gd in guards if any(closed_test_polarity(x) != 0 for x in ast.walk(gd.test))]
+    out.sort(key=lambda gd: (getattr(gd, "lineno", 0), getattr(gd, "col_offset", 0)))
+    return out
+
+
 def find_flag(prologue, loop):
     """the one-shot flag of the time loop, identified by its role: a local defined before the loop whose only assignments inside the loop
     set it to False (true at most until the first accepted step)."""
@@ -606,16 +664,12 @@ def run(repo, chk):
     # ------------------------------------------------------------ R-C10-4 initialisation agrees with the loop's own update
     # the connectivity graph is loop-carried state: what a new simulator derives from the model at the start of a continued run must be what the
     # uninterrupted run's update rule would have produced -- both encode a link from the same atoms (its status), nothing else
-    from .c09 import status_guards, status_encoding_table
+    from .c09 import closed_test_polarity, status_encoding_table
     ig_, ug_ = meths.get("_initialize_internal_graph"), meths.get("_update_internal_graph")
     if ig_ is None or ug_ is None:
         raise AnchorError("_initialize_internal_graph / _update_internal_graph vanished")
-    # an encoding store writes the connectivity constant 0 / 1 into a container (append or item assignment), whatever the container is called
-    bit = lambda v: type(const(v)) is int and const(v) in (0, 1)
-    is_vals = lambda n: isinstance(n, ast.Call) and isinstance(n.func, ast.Attribute) and n.func.attr == "append" and len(n.args) == 1 and bit(n.args[0])
-    is_data = lambda n: isinstance(n, ast.Assign) and isinstance(n.targets[0], ast.Subscript) and bit(n.value)
-    gi_ = status_guards(ig_, lambda n: is_vals(n) or is_data(n))
-    gu_ = status_guards(ug_, is_data)
+    gi_ = encoding_guards(ig_, closed_test_polarity)
+    gu_ = encoding_guards(ug_, closed_test_polarity)
     if not gi_ or not gu_:
         raise ExtractError("status encodings of the internal graph not found")
 
@@ -785,6 +839,8 @@ def run(repo, chk):
 _FS_OLD = "        if self._wn.sim_time == 0:\n            first_step = True\n        else:\n            first_step = False\n"
 _RI_OLD = ("        if first_step:\n            self._rule_iter = 1\n        else:\n"
            "            self._rule_iter = int(self._wn._prev_sim_time // self._wn.options.time.rule_timestep) + 1\n")
+_ENC_OLD = ("            if link.status == wntr.network.LinkStatus.Closed:\n                vals.append(0)\n                vals.append(0)\n"
+            "            else:\n                vals.append(1)\n                vals.append(1)\n")
 WITNESSES = [
     dict(name="restart-graph-from-isolation-flags", file=CORE, old="            if link.status == wntr.network.LinkStatus.Closed:\n                vals.append(0)",
          new="            if link.status == wntr.network.LinkStatus.Closed or link._is_isolated:\n                vals.append(0)", rule="R-C10-4"),
@@ -810,6 +866,8 @@ WITNESSES = [
     dict(name="rule-clock-reset-by-conditional-expression", file=CORE, old=_RI_OLD, new="        self._rule_iter = 1 if first_step else 1\n", rule="R-C10-1"),
     dict(name="rule-clock-override-only-on-first-step", file=CORE, old=_RI_OLD,
          new="        self._rule_iter = 1\n        if first_step:\n            self._rule_iter = int(self._wn._prev_sim_time // self._wn.options.time.rule_timestep) + 1\n", rule="R-C10-1"),
+    dict(name="restart-graph-from-isolation-flags-through-temporary", file=CORE, old=_ENC_OLD,
+         new="            entry = 0 if (link.status == wntr.network.LinkStatus.Closed or link._is_isolated) else 1\n            vals.append(entry)\n            vals.append(entry)\n", rule="R-C10-4"),
     # ---- behaviour-preserving spellings that must stay quiet
     dict(name="quiet-first-step-bool-expression", file=CORE, old=_FS_OLD, new="        first_step = bool(self._wn.sim_time == 0)\n", silent=True),
     dict(name="quiet-first-step-hoisted-clock-and-negation", file=CORE, old=_FS_OLD, new="        now = self._wn.sim_time\n        continued = now != 0\n        first_step = not continued\n", silent=True),
@@ -851,6 +909,10 @@ WITNESSES = [
                ("                trial += 1\n                if trial > max_trials:", "                n_solves += 1\n                if n_solves > max_trials:"),
                ("format(self._get_time(), trial, str(iter_count)", "format(self._get_time(), n_solves, str(iter_count)")],
          silent=True),
+    dict(name="quiet-graph-entry-through-temporary", file=CORE, old=_ENC_OLD,
+         new="            entry = 0 if link.status == wntr.network.LinkStatus.Closed else 1\n            vals.append(entry)\n            vals.append(entry)\n", silent=True),
+    dict(name="quiet-graph-entry-through-temporary-statement", file=CORE, old=_ENC_OLD,
+         new="            entry = 1\n            if link.status == wntr.network.LinkStatus.Closed:\n                entry = 0\n            vals.append(entry)\n            vals.append(entry)\n", silent=True),
     dict(name="quiet-graph-encoding-containers-renamed", file=CORE, old="            if link.status == wntr.network.LinkStatus.Closed:\n                vals.append(0)\n                vals.append(0)\n            else:\n                vals.append(1)\n                vals.append(1)\n",
          new="            if link.status == wntr.network.LinkStatus.Closed:\n                entries.append(0)\n                entries.append(0)\n            else:\n                entries.append(1)\n                entries.append(1)\n",
          also=[("        vals = []\n        for link_name, link in itertools.chain", "        entries = []\n        for link_name, link in itertools.chain"),
